@@ -234,6 +234,19 @@ theorem hc128_history (seed : List U8) (h : seed.length = 32) (ops : List Op)
       .ok (Checked.BlockRng.runM Rngs.Hc128.blockCore ops (Rngs.Hc128.fromSeed seed)) :=
   (Checked.BlockRng.run_ok Checked.Hc128.blockOK ops hops _ (Checked.Hc128.fromSeed_ok seed h).2).1
 
+/-- wrap-around of the 64-bit block counter: at `counter1024 = 2^64 - 16` `generate` does not
+    panic and leaves the counter at 0 -/
+example (t results : Array U32) (ht : t.size = 1024) (hr : results.size = 16) :
+    Checked.Hc128.generate { t := t, counter := 2 ^ 64 - 16 } results =
+      .ok (Rngs.Hc128.generate { t := t, counter := 2 ^ 64 - 16 } results) ∧
+    (Rngs.Hc128.generate { t := t, counter := 2 ^ 64 - 16 } results).2.counter = 0 := by
+  refine ⟨(Checked.Hc128.generate_ok _ results ⟨ht, (by decide : (2 ^ 64 - 16) % 16 = 0)⟩ hr).1, ?_⟩
+  rw [Checked.Hc128.generate_eq]
+  generalize List.foldl _ _ _ = p
+  obtain ⟨t', r', k'⟩ := p
+  show (2 ^ 64 - 16 + 16) % 2 ^ 64 = 0
+  decide
+
 /-- the invariant is satisfiable: it holds for the generator seeded with zeros -/
 example : Checked.Hc128.RngInv (Rngs.Hc128.fromSeed (List.replicate 32 0)) :=
   (Checked.Hc128.fromSeed_ok _ (by simp)).2
@@ -743,5 +756,19 @@ theorem jitter_new (cached : Nat) (rs : List U64) :
 /-- a stuck / exhausted timer blocks the call; it does not panic -/
 example (j : Rngs.Jitter.Rng) : Checked.Jitter.nextU64 j [] = .ok none := rfl
 example : Checked.Jitter.Inv Rngs.Jitter.newWithTimer := Checked.Jitter.Inv_newWithTimer
+
+/-! ## the checks are not vacuous: outside the invariants they do fire -/
+
+/-- `BlockRng64::next_u32` with `half_used` set at `index = 0`: `usize` underflow -/
+example (c : BlockCoreC Unit 64) (res : Array U64) : Checked.BlockRng64.nextU32 c
+    { results := res, index := 0, halfUsed := true, core := () } = .error .overflow := rfl
+/-- `BlockRng::next_u64` on an exhausted 2-word buffer: `generate_and_set(2)` asserts -/
+example (c : BlockCoreC Unit 32) (a b : U32) : Checked.BlockRng.nextU64 c
+    { results := #[a, b], index := 2, core := () } = .error .assertFailed := rfl
+/-- HC-128 with a misaligned counter: `assert!(self.counter1024 % 16 == 0)` -/
+example (t res : Array U32) :
+    Checked.Hc128.generate { t := t, counter := 8 } res = .error .assertFailed := rfl
+/-- `read_u32_into` with a short source: the `assert!` -/
+example : Checked.readU32s (List.replicate 31 0) 8 = .error .assertFailed := rfl
 
 end Rngs.C14
